@@ -121,6 +121,8 @@ def gen_ops(rng, keys, nops, tag, weights=None):
                             [[rng.choice(strkeys), val()] for _ in range(rng.randint(1, 2))]])
             else:
                 ops.append(['update', pairs(rng.randint(0, 4)), rng.choice(['dict', 'pairs', 'iter', 'dict', 'pairs', 'iter', 'lri_src', 'lru_src', 'keysonly'])])
+        elif r < 0.772:
+            ops.append(['update_rmw', [rng.choice(keys) for _ in range(rng.randint(1, 3))], 'r%d' % rng.randint(0, 9)])
         elif r < 0.775:
             ops.append(['update_bad', pairs(rng.randint(0, 3)), rng.choice(['malformed', 'gen_raises', 'mapping_raises'])])
         elif r < 0.80:
